@@ -31,7 +31,7 @@ META = dict(
                       "all odd p >= 3; (T) p = 5 on two fixed curves (prime and even order) for every operation, "
                       "p = 7 for double/neg/==/affine conversion; all points and all scalings "
                       "z1, z2 in [1, p)",
-                thorough="(T) p = 5 with (a, b) symbolic; p = 7, 11, 13 on fixed curves for every operation"),
+                thorough="(T) p = 5 with (a, b) symbolic; p = 7 every operation; p = 11 double/neg/==/affine"),
     stubs=["pow(a, -1, p) on the tiny fields of (T): table of inverses"],
     outside=["(T) beyond p = 13 (bit-blasting limit); characteristic 2 and 3; singular curves",
              "(R) covers formula paths, not the inverse-based conversions (x(), y(), scale()), "
@@ -494,9 +494,9 @@ def jobs(tier, seed):
     if tier != "quick":
         for op in ops:
             js.append(Job("T/p5/sym/%s" % op, "harness.c06:tiny", p=5, ab=None, op=op))
-        for p in (11, 13):
+        for p in (11,):
             for ab in _fixed_curves(p):
-                for op in ops:
+                for op in light:
                     js.append(Job("T/p%d/%d_%d/%s" % (p, ab[0], ab[1], op), "harness.c06:tiny", p=p, ab=ab, op=op))
     return js
 
